@@ -180,6 +180,10 @@ def make_move(key: str, labels, extra=None):
         return CellMove(AnisotropicDeformation(0.05), scale_atoms=False), []
     if key == "C_shape":
         return CellMove(ShapeDeformation(0.05)), []
+    if key in ("C_aniso_m", "C_shape_m", "C_iso_m"):
+        mask = np.array([[True, False, True], [False, True, True], [True, True, False]])
+        cls = {"C_aniso_m": AnisotropicDeformation, "C_shape_m": ShapeDeformation, "C_iso_m": IsotropicDeformation}[key]
+        return CellMove(cls(0.05, mask=mask)), []
     if key == "H":
         return HamiltonianDisplacementMove(operation=Verlet(dt=1.0, max_steps=3)), []
     if key == "H1":
